@@ -21,7 +21,7 @@ from harness import common
 from harness.common import Model
 
 PID = "C14"
-TRANSLATORS = ["T-selectors-cheat"]
+TRANSLATORS = ["T-selectors-cheat", "T-copies"]
 
 # Genuine defects of halmos reproduced by this check and not repaired: they live in
 # /verif/known_findings.json (none at present; C14-console-consumes-prank was repaired by f99ede4)
@@ -645,9 +645,9 @@ def tie_prank_sevm(rep, m, tier, r):
     n = 450 if tier == "quick" else 12000
     cases = [list(c) for c in PRANK_CORPUS]
     for i in range(n):
-        cases.append(gen_prank_ops(r, r.choice([3, 5, 8, 12, 20]), allow_console=(i % 4 == 0), two_tx=(i % 9 == 0)))
+        cases.append(gen_prank_ops(r, r.choice([3, 5, 8, 12, 20]), allow_console=(i % 2 == 0), two_tx=(i % 9 == 0)))
     # exhaustive short sequences over a small alphabet (each call immediately returns or stays open)
-    alpha = [("prank", A1), ("prank2", A2, A3), ("startPrank", A1), ("stopPrank",), ("cheat", "hevm"), ("call",), ("create",), ("return",)]
+    alpha = [("prank", A1), ("prank2", A2, A3), ("startPrank", A1), ("stopPrank",), ("cheat", "hevm"), ("cheat", "console"), ("call",), ("create",), ("return",)]
     L = 4 if tier == "quick" else 5
     for k in range(1, L + 1):
         tuples = list(itertools.product(alpha, repeat=k))
@@ -802,16 +802,18 @@ def state_program(items):
             code += push(it[1], 32) + op("SLOAD") + LOGTOP
         elif k == "EXTCODESIZE":
             code += push(it[1], 32) + op("EXTCODESIZE") + LOGTOP
+        elif k == "MARK":
+            code += push(it[1], 32) + LOGTOP
         else:
             code += op(k) + LOGTOP
     return code + op("STOP")
 
 
-def state_model_call(items, vals, init_block):
+def state_model_items(items, vals):
     def v(a):
         return vals[a[1]] if isinstance(a, tuple) else a
 
-    out = list(init_block) + [2, THIS, 0xB0B]
+    out = []
     for it in items:
         k = it[0]
         if k == "deal":
@@ -830,14 +832,25 @@ def state_model_call(items, vals, init_block):
             out += [11, THIS, it[1]]
         elif k == "EXTCODESIZE":
             out += [12, it[1]]
+        elif k == "MARK":
+            out += [19, it[1]]
         else:
             out += [{"TIMESTAMP": 13, "NUMBER": 14, "BASEFEE": 15, "CHAINID": 16, "COINBASE": 17, "DIFFICULTY": 18}[k]]
     return out
 
 
+def state_model_call(items, vals, init_block):
+    return list(init_block) + [2, THIS, 0xB0B] + state_model_items(items, vals)
+
+
 def state_spec(items, vals, init_block):
     """independent rendering: what subsequent reads must return (Foundry), as the flat list
     the model prints: 1 per cheat, [1, v] per load, v per read; 0 / 2 end the run"""
+    return state_spec_status(items, vals, init_block)[0]
+
+
+def state_spec_status(items, vals, init_block):
+    """(the list, index of the item that ended the run with a refusal or None)"""
     def v(a):
         return vals[a[1]] if isinstance(a, tuple) else a
 
@@ -846,16 +859,16 @@ def state_spec(items, vals, init_block):
     bal, sto, code = {}, {}, {THIS: None, 0xB0B: 1}   # None: size of the test program itself, not compared
     blk = dict(zip(["BASEFEE", "CHAINID", "COINBASE", "DIFFICULTY", "NUMBER", "TIMESTAMP"], init_block))
     out = []
-    for it in items:
+    for idx, it in enumerate(items):
         k = it[0]
         if k == "deal":
             bal[v(it[1]) & M160] = (v(it[2]), isinstance(it[2], tuple))
             out.append(1)
         elif k == "store":
             if (v(it[1]), v(it[2]), v(it[3])) == (HEVM, FAILED_SLOT, 1):
-                return out + [2]        # DSTest.fail(): the test fails
+                return out + [2], idx   # DSTest.fail(): the test fails
             if (v(it[1]) & M160) not in code:
-                return out + [0]        # halmos refuses vm.store on an account without code (fail-stop, not a wrong value)
+                return out + [0], idx   # halmos refuses vm.store on an account without code (fail-stop, not a wrong value)
             sto[(v(it[1]) & M160, v(it[2]))] = v(it[3])
             out.append(1)
         elif k == "load":
@@ -870,16 +883,18 @@ def state_spec(items, vals, init_block):
         elif k == "BALANCE":
             val, symbolic = bal.get(it[1] & M160, (0, False))
             if val > MAX_ETH and not symbolic:
-                return out + [0]        # halmos refuses concrete balances above MAX_ETH = 2^128 (fail-stop; stated in the assumptions)
+                return out + [0], idx   # halmos refuses concrete balances above MAX_ETH = 2^128 (fail-stop; stated in the assumptions)
             out.append(val)
         elif k == "SLOAD":
             out.append(sto.get((THIS, it[1]), 0))
         elif k == "EXTCODESIZE":
             a = it[1] & M160
             out.append(code[a] if a in code else 0)
+        elif k == "MARK":
+            out.append(it[1])
         else:
             out.append(blk[k])
-    return out
+    return out, None
 
 
 def impl_state_case(items, vals):
@@ -965,75 +980,240 @@ def tie_state(rep, m, tier, r):
     return nbad
 
 
-def fork_program(P, A, B):
-    """P; if (calldata word 0 != 0) { log 2; B } else { log 1; A }   -- a symbolic fork between
-    state cheatcodes: what one side sets must never be read by the other"""
-    head = state_program(P)[:-1] + push(0) + op("CALLDATALOAD")
-    side_a = push(1, 32) + LOGTOP + state_program(A)          # ends with STOP
-    target = len(head) + 3 + 1 + len(side_a)
-    code = head + bytes([0x61]) + target.to_bytes(2, "big") + op("JUMPI") + side_a
-    assert len(code) == target
-    return code + op("JUMPDEST") + push(2, 32) + LOGTOP + state_program(B)
+def path_output(ex, subst):
+    """what one finished path printed, in the format of the model (see impl_state_case)"""
+    from halmos.sevm import CallContext, EventLog
 
-
-def _reads_of(items, init_block):
-    """the values the program logs (cheat calls themselves log nothing)"""
-    full = state_spec(items, [0, 0, 0, 0], init_block)
-    out, j = [], 0
-    for it in items:
-        if it[0] == "load":
-            out.append(full[j + 1])
-            j += 2
-        elif it[0] in BLOCK_CHEATS or it[0] in ("deal", "store", "etch"):
-            j += 1
-        else:
-            out.append(full[j])
-            j += 1
+    out = []
+    for t in ex.context.trace:
+        if isinstance(t, CallContext):
+            if as_int(t.message.target) == HEVM:
+                out.append(1)
+        elif isinstance(t, EventLog):
+            val = as_int(t.data, subst)
+            out.append(val if val is not None else "unevaluated")
+    err = ex.context.output.error
+    if ex.context.is_stuck() or err is not None:
+        out.append(2 if type(err).__name__ == "FailCheatcode" else 0)
     return out
 
 
+# A program tree: a list of items, optionally ended by ("FORK", fall_tree, jump_tree) -- a JUMPI
+# on the calldata word number `depth` (symbolic, unconstrained: both sides are feasible).
+MARK0 = 0xF00D0000
+
+
+def asm_tree(tree, base=0, depth=0):
+    code = b""
+    for node in tree:
+        if node[0] == "FORK":
+            head = push(32 * depth) + op("CALLDATALOAD")
+            at = base + len(code) + len(head) + 4                  # PUSH2 xx xx JUMPI
+            fall = asm_tree(node[1], at, depth + 1)
+            target = at + len(fall)
+            jump = op("JUMPDEST") + asm_tree(node[2], target + 1, depth + 1)
+            return code + head + bytes([0x61]) + target.to_bytes(2, "big") + op("JUMPI") + fall + jump
+        code += state_program([node])[:-1]
+    return code + op("STOP")
+
+
+def enc_tree(tree, vals):
+    out = []
+    for node in tree:
+        if node[0] == "FORK":
+            return out + [20] + enc_tree(node[1], vals) + enc_tree(node[2], vals)
+        out += state_model_items([node], vals)
+    return out + [21]
+
+
+def tree_paths(tree, prefix=()):
+    """root-to-leaf item sequences, fall-through side first"""
+    items = list(prefix)
+    for node in tree:
+        if node[0] == "FORK":
+            return tree_paths(node[1], items) + tree_paths(node[2], items)
+        items.append(node)
+    return [items]
+
+
+def spec_tree(tree, vals, init_block):
+    """independent rendering of C14 on a program with branches: every path reads exactly what
+    was supplied on ITS OWN root-to-leaf sequence (a path refused before a branch is one path)"""
+    outs = []
+    for items in tree_paths(tree):
+        o, stop = state_spec_status(items, vals, init_block)
+        key = (tuple(o), None if stop is None else tuple(map(repr, items[:stop + 1])))
+        if stop is not None and any(k == key for k, _ in outs):
+            continue            # the same refused prefix, seen from another leaf below it
+        outs.append((key, o))
+    return [o for _, o in outs]
+
+
+def tree_stats(tree, depth=0):
+    nf, md = 0, depth
+    for node in tree:
+        if node[0] == "FORK":
+            for sub in node[1:]:
+                a, b = tree_stats(sub, depth + 1)
+                nf, md = nf + a, max(md, b)
+            nf += 1
+    return nf, md
+
+
+def gen_fork_tree(r, depth, counter, kinds):
+    """items (state cheatcodes with concrete or cd3-symbolic words, reads), then maybe a fork"""
+    def word():
+        if r.random() < 0.15:
+            return ("cd", 3)
+        return r.choice([0, 1, 5, 2 ** 64, 2 ** 160 + 7, 2 ** 256 - 1, r.getrandbits(64), r.getrandbits(256)])
+
+    def one():
+        k = r.choice(kinds)
+        if k == "block":
+            return (r.choice(list(BLOCK_CHEATS)), word())
+        if k == "blockread":
+            return (r.choice(["TIMESTAMP", "NUMBER", "BASEFEE", "CHAINID", "COINBASE", "DIFFICULTY"]),)
+        if k == "store":
+            return ("store", r.choice([THIS, THIS, 0xB0B, 0xCAFE]), r.choice([0, 1, 2]), word())
+        if k == "sload":
+            return ("SLOAD", r.choice([0, 1, 2]))
+        if k == "load":
+            return ("load", r.choice([THIS, 0xB0B, 0xCAFE]), r.choice([0, 1, 2]))
+        if k == "deal":
+            return ("deal", r.choice([THIS, 0xB0B, 0xD00D]), r.choice([0, 1, 2 ** 128, r.getrandbits(100), ("cd", 3)]))
+        if k == "balance":
+            return ("BALANCE", r.choice([THIS, 0xB0B, 0xD00D]))
+        if k == "etch":
+            return ("etch", r.choice([0xB0B, 0xCAFE, 0xD00D]), [r.randrange(256) for _ in range(r.choice([0, 1, 3, 33]))])
+        return ("EXTCODESIZE", r.choice([0xB0B, 0xCAFE, 0xD00D]))
+
+    tree = [one() for _ in range(r.randrange(0, 4))]
+    if depth < 3 and r.random() < (0.95 if depth == 0 else 0.45):
+        counter[0] += 2
+        m = counter[0]
+        fall = [("MARK", MARK0 + m)] + gen_fork_tree(r, depth + 1, counter, kinds)
+        jump = [("MARK", MARK0 + m + 1)] + gen_fork_tree(r, depth + 1, counter, kinds)
+        tree.append(("FORK", fall, jump))
+    else:
+        # every path ends reading back everything it could have been told
+        tree += [("TIMESTAMP",), ("NUMBER",), ("BASEFEE",), ("CHAINID",), ("COINBASE",), ("DIFFICULTY",)] if "block" in kinds else []
+        tree += [("SLOAD", 0), ("SLOAD", 1), ("load", 0xB0B, 1)] if "store" in kinds else []
+        tree += [("BALANCE", 0xB0B), ("BALANCE", THIS)] if "deal" in kinds else []
+        tree += [("EXTCODESIZE", 0xCAFE), ("EXTCODESIZE", 0xB0B)] if "etch" in kinds else []
+    return tree
+
+
+def _fork3(P, A, B):
+    return list(P) + [("FORK", [("MARK", MARK0 + 1)] + list(A), [("MARK", MARK0 + 2)] + list(B))]
+
+
+FORK_CORPUS = [
+    _fork3([("warp", 100), ("roll", 7), ("chainId", 5)], [("warp", 300), ("roll", 9), ("chainId", 11), ("TIMESTAMP",)], [("TIMESTAMP",), ("NUMBER",), ("CHAINID",)]),
+    _fork3([("fee", 3)], [("BASEFEE",), ("fee", 4), ("BASEFEE",)], [("fee", 8), ("coinbase", 0xB0B), ("BASEFEE",), ("COINBASE",)]),
+    _fork3([("store", THIS, 1, 5)], [("store", THIS, 1, 6), ("SLOAD", 1)], [("SLOAD", 1), ("deal", 0xB0B, 9), ("BALANCE", 0xB0B)]),
+    _fork3([("store", 0xB0B, 1, 5)], [("store", 0xB0B, 1, 6), ("store", 0xB0B, 2, 7)], [("load", 0xB0B, 1), ("load", 0xB0B, 2)]),
+    _fork3([], [("etch", 0xCAFE, [1, 2, 3]), ("store", 0xCAFE, 0, 4)], [("EXTCODESIZE", 0xCAFE), ("load", 0xCAFE, 0), ("store", 0xCAFE, 0, 4)]),
+    _fork3([("deal", 0xB0B, 5)], [("deal", 0xB0B, 6), ("BALANCE", 0xB0B)], [("BALANCE", 0xB0B)]),
+    # the fall-through side is refused; the jump side is untouched by it
+    _fork3([("warp", 1)], [("warp", 2), ("store", 0xCAFE, 0, 1), ("TIMESTAMP",)], [("TIMESTAMP",)]),
+    # three levels: the innermost fall-through paths run first
+    [("warp", 1), ("FORK", [("MARK", MARK0 + 1), ("roll", 2), ("FORK", [("MARK", MARK0 + 3), ("warp", 3), ("fee", 3), ("FORK", [("MARK", MARK0 + 5), ("warp", 5), ("roll", 5)], [("MARK", MARK0 + 6), ("TIMESTAMP",), ("NUMBER",), ("BASEFEE",)])],
+                                    [("MARK", MARK0 + 4), ("TIMESTAMP",), ("NUMBER",), ("BASEFEE",)])],
+                  [("MARK", MARK0 + 2), ("TIMESTAMP",), ("NUMBER",), ("BASEFEE",), ("FORK", [("MARK", MARK0 + 7), ("chainId", 9)], [("MARK", MARK0 + 8), ("CHAINID",)])])],
+]
+
+
+def dec_fork_model(flat):
+    """c14_fork output -> (kinds, paths of the worklist run, paths of the value semantics)"""
+    kinds, i, lists = flat[:3], 3, []
+    for _ in range(2):
+        n = flat[i]
+        i += 1
+        ps = []
+        for _ in range(n):
+            ln = flat[i]
+            ps.append(flat[i + 1:i + 1 + ln])
+            i += 1 + ln
+        lists.append(ps)
+    return kinds, lists[0], lists[1]
+
+
+def impl_fork_case(tree, vals):
+    import z3
+
+    code = asm_tree(tree)
+    exs = run_program({THIS: code, 0xB0B: op("STOP")}, symbolic_calldata=4)
+    subst = [(z3.BitVec("cd3", 256), z3.BitVecVal(vals[3], 256))]
+    return [path_output(ex, subst) for ex in exs]
+
+
 def tie_state_fork(rep, m, tier, r):
-    """isolation of the state cheatcodes between sibling paths: after a symbolic fork each
-    path must read exactly what was supplied on ITS path"""
+    """isolation of the state cheatcodes between sibling paths: after symbolic forks (nested up
+    to three deep) each path must read exactly what was supplied on ITS path.  Real SEVM vs
+    python spec (failing input) and vs the extracted worklist model with object identity."""
     from halmos.__main__ import mk_block
-    from halmos.sevm import EventLog
 
     b = mk_block()
     init_block = [as_int(b.basefee), as_int(b.chainid), as_int(b.coinbase), as_int(b.difficulty), as_int(b.number), as_int(b.timestamp)]
-    reads = [("TIMESTAMP",), ("NUMBER",), ("BASEFEE",), ("CHAINID",), ("COINBASE",), ("DIFFICULTY",)]
-    cases = [
-        ([("warp", 100), ("roll", 7), ("chainId", 5)], [("warp", 300), ("roll", 9), ("chainId", 11), ("TIMESTAMP",)], [("TIMESTAMP",), ("NUMBER",), ("CHAINID",)]),
-        ([("fee", 3)], [("BASEFEE",), ("fee", 4), ("BASEFEE",)], [("fee", 8), ("coinbase", 0xB0B), ("BASEFEE",), ("COINBASE",)]),
-        ([("store", THIS, 1, 5)], [("store", THIS, 1, 6), ("SLOAD", 1)], [("SLOAD", 1), ("deal", 0xB0B, 9), ("BALANCE", 0xB0B)]),
-    ]
-
-    def gen_side():
-        return [(r.choice(list(BLOCK_CHEATS)), r.choice([0, 1, 5, 2 ** 64, r.getrandbits(64)])) for _ in range(r.randrange(1, 4))]
-
-    for _ in range(30 if tier == "quick" else 400):
-        cases.append((gen_side(), gen_side() + r.sample(reads, 3), r.sample(reads, 3) + gen_side() + r.sample(reads, 2)))
+    cases = [(t, [0, 0, 0, 0]) for t in FORK_CORPUS]
+    profiles = [["block", "blockread"], ["block", "blockread", "block"], ["store", "sload", "load"], ["deal", "balance"], ["etch", "codesize", "store", "load"],
+                ["block", "blockread", "store", "sload", "load", "deal", "balance", "etch", "codesize"]]
+    n = 140 if tier == "quick" else 3000
+    for i in range(n):
+        vals = [0, 0, 0, r.choice([0, 1, 2 ** 128, r.getrandbits(100)])]
+        cases.append((gen_fork_tree(r, 0, [10], profiles[i % len(profiles)]), vals))
+    model = None
+    if m is not None:
+        model = m.parallel_batch([("c14_fork", list(init_block) + [2, THIS, 0xB0B] + enc_tree(t, v)) for t, v in cases])
     nbad = 0
-    for P, A, B in cases:
-        rep.case({"fork_state_case": [P, A, B]}, nontrivial=True)
-        code = fork_program(P, A, B)
-        exs = run_program({THIS: code, 0xB0B: op("STOP")}, symbolic_calldata=4)
-        np_ = len(_reads_of(P, init_block))
-        seen = set()
-        for ex in exs:
-            logs = [as_int(t.data) for t in ex.context.trace if isinstance(t, EventLog)]
-            side = logs[np_] if len(logs) > np_ else None
-            if side not in (1, 2):
-                continue
-            seen.add(side)
-            want = _reads_of(P, init_block) + [side] + _reads_of(P + (A if side == 1 else B), init_block)[np_:]
-            if logs != want:
+    norm = lambda l: [0 if x == -1 else x for x in l]  # noqa: E731  (EXTCODESIZE of a missing account: model -1, EVM 0)
+    npaths = 0
+    for idx, (tree, vals) in enumerate(cases):
+        nf, md = tree_stats(tree)
+        rep.count("fork_tree_forks", min(nf, 7))
+        rep.count("fork_tree_depth", md)
+        rep.case({"fork_tree": tree, "calldata_values": vals}, nontrivial=nf > 0)
+        try:
+            impl = impl_fork_case(tree, vals)
+        except Exception as e:  # noqa: BLE001
+            impl = [[f"EXC {type(e).__name__}: {e}"]]
+        npaths += len(impl)
+        spec = spec_tree(tree, vals, init_block)
+        key = lambda o: [str(x) for x in o]  # noqa: E731
+        if sorted(impl, key=key) != sorted(spec, key=key):
+            nbad += 1
+            wrong = [o for o in impl if o not in spec]
+            missing = [o for o in spec if o not in impl]
+            note = ""
+            if model is not None and model[idx]:
+                kinds, mrun, _ = dec_fork_model(model[idx])
+                same = sorted([norm(o) for o in mrun], key=key) == sorted(impl, key=key)
+                note = (f"; the worklist model with the regenerated create_branch kinds (block copied, storage deep-copied, code copied) = {kinds} "
+                        + ("predicts exactly these outputs" if same else "does not predict these outputs"))
+            if nbad <= 6:
+                rep.fail("failing-input",
+                         f"state cheatcodes are not confined to the path that executed them: program tree {tree} (calldata word 3 = {vals[3]}): "
+                         f"path(s) read {wrong}; supplied on their own path: {missing}{note}",
+                         case={"fork_tree": tree, "calldata_values": vals, "implementation": impl, "spec": spec},
+                         sig={"defect": "state_cheatcode_sibling_leak"})
+            continue
+        if model is not None:
+            mo = model[idx]
+            if not mo:
                 nbad += 1
-                if nbad <= 5:
-                    rep.fail("failing-input", f"state cheatcodes leak between sibling paths: prefix {P}, fall-through side {A}, jump side {B}: side {side} read {logs}, supplied on this path: {want}",
-                             case={"fork_state_case": [P, A, B], "side": side, "implementation": logs, "spec": want}, sig={"defect": "state_cheatcode_sibling_leak"})
-        if seen != {1, 2}:
-            rep.fail("broken-tie", f"fork state program did not yield both sides: {seen}", case={"fork_state_case": [P, A, B]})
+                rep.fail("broken-tie", f"the fork model produced no output for {tree}", case={"fork_tree": tree})
+                continue
+            kinds, mrun, mspec = dec_fork_model(mo)
+            mrun = [norm(o) for o in mrun]
+            # (the model also fixes the completion order -- LIFO worklist, fall-through side first --
+            #  but the order in which halmos explores paths is not part of C14: compare as multisets)
+            if sorted(mrun, key=key) != sorted(impl, key=key):
+                nbad += 1
+                if nbad <= 6:
+                    rep.fail("broken-tie", f"worklist model (create_branch kinds {kinds}) and implementation disagree on {tree}: implementation {impl} model {mrun}",
+                             case={"fork_tree": tree, "calldata_values": vals, "implementation": impl, "model": mrun})
     rep.count("tie", "L2b fork state programs", len(cases))
+    rep.coverage["L2b_fork_programs"] = {"programs": len(cases), "paths": npaths, "max_nesting": 3}
     return nbad
 
 
@@ -1411,11 +1591,15 @@ def run(rep, tier):
     b = common.build_property(PID, TRANSLATORS)
     common.standard_obligations(rep, PID, b)
     m = None
-    if b["make_ok"]:
+    if all(t["ok"] for t in b["translators"]):
+        # the extracted model depends on Model/*.v and Gen/*.v only: it is built (and the ties run against
+        # it) also when a proof no longer goes through, so that a violation is shown three ways --
+        # broken obligation, failing input, and whether the model still predicts what the code does
         exe, log = common.build_driver(PID)
-        rep.obligation("extraction of Model/PrankModel.v + Model/CheatModel.v entry points + OCaml driver build", exe is not None, "" if exe else log[-800:])
+        rep.obligation("extraction of Model/{Prank,Cheat,Fork}Model.v entry points + OCaml driver build", exe is not None, "" if exe else log[-800:])
         if exe is None:
-            rep.fail("broken-tie", "extracted model driver does not build: " + log[-400:], case={})
+            if b["make_ok"]:
+                rep.fail("broken-tie", "extracted model driver does not build: " + log[-400:], case={})
         else:
             m = Model(exe)
     r = common.rng(PID)
@@ -1436,23 +1620,27 @@ def run(rep, tier):
     rep.coverage["tie_wall_s"] = timing
     rep.coverage["traces_validated_against_impl"] = rep.evaluations if m is not None else 0
     rep.coverage["known_defects"] = [k["id"] for k in KNOWN]
-    if True:
-        return rep.finish(
-            checker_cmd="make -C coq Props/C14.vo (coq_makefile, coqc 8.16.1) after regenerating coq/Gen/GenCheatSelectors.v from /repo/src/halmos/{cheatcodes,console,sevm}.py",
-            trusted_base=common.TRUSTED_BASE_COMMON,
-            assumptions=ASSUMPTIONS,
-            partial=PARTIAL,
-            rule="(L1) method sequences on the real Prank object over {prank, prank2, startPrank, startPrank2, stopPrank, lookup(user|0|hevm|svm|console)} x 3 addresses, "
-                 "exhaustive to length 3 (quick; +4000 sampled of length <= 4) / 5 (thorough), compared with the extracted model after every method (result + object state); "
-                 "(L2a) op sequences {prank*, stopPrank, hevm/svm/console call, call/staticcall/create into a fresh contract, return, symbolic branch, second transaction} "
-                 "assembled into EVM programs (one contract per entered frame, creations as embedded initcode) and run through SEVM.run / SEVM.run_message; the CALLER/ORIGIN each "
-                 "entered frame logs are compared with the python rendering of Foundry's meaning and with the extracted model; corpus + exhaustive sequences to length 3 (+1500 sampled of length 4) / 5 over an "
-                 "8-symbol alphabet + seeded random sequences to length 20; non-trivial = contains a prank-family op and a call/create; "
-                 "(L2b) programs of state cheatcodes with boundary / random / symbolic (calldata) words and dirty addresses followed by BALANCE/SLOAD/EXTCODESIZE/"
-                 "TIMESTAMP/NUMBER/BASEFEE/CHAINID/COINBASE/PREVRANDAO/vm.load reads, symbolic results evaluated under the calldata valuation; "
-                 "(L1c) every svm.create*/vm.random* selector through the real handle() for widths 0..257 and byte sizes {0,1,31,32,33,64}: status, counter, returned term evaluated "
-                 "under 5-9 valuations incl. boundaries, range constraints, symbol width/type/name/counter rendering; 300 successive creations on one path have pairwise distinct names",
-        )
+    return rep.finish(
+        checker_cmd="make -C coq Props/C14.vo (coq_makefile, coqc 8.16.1) after regenerating coq/Gen/GenCheatSelectors.v from /repo/src/halmos/{cheatcodes,console,sevm}.py "
+                    "and coq/Gen/GenCopies.v (copy-vs-share table of SEVM.create_branch) from sevm.py",
+        trusted_base=common.TRUSTED_BASE_COMMON,
+        assumptions=ASSUMPTIONS,
+        partial=PARTIAL,
+        rule="(L1) method sequences on the real Prank object over {prank, prank2, startPrank, startPrank2, stopPrank, lookup(user|0|hevm|svm|console)} x 3 addresses, "
+             "exhaustive to length 3 (quick; +4000 sampled of length <= 4) / 5 (thorough), compared with the extracted model after every method (result + object state); "
+             "(L2a) op sequences {prank*, stopPrank, hevm/svm/console call, call/staticcall/create into a fresh contract, return, symbolic branch, second transaction} "
+             "assembled into EVM programs (one contract per entered frame, creations as embedded initcode) and run through SEVM.run / SEVM.run_message; the CALLER/ORIGIN each "
+             "entered frame logs are compared with the python rendering of Foundry's meaning and with the extracted model; corpus + exhaustive sequences to length 3 (+1500 sampled of length 4) / 5 over a "
+             "9-symbol alphabet (console.log included) + seeded random sequences to length 20; non-trivial = contains a prank-family op and a call/create; "
+             "(L2b) programs of state cheatcodes with boundary / random / symbolic (calldata) words and dirty addresses followed by BALANCE/SLOAD/EXTCODESIZE/"
+             "TIMESTAMP/NUMBER/BASEFEE/CHAINID/COINBASE/PREVRANDAO/vm.load reads, symbolic results evaluated under the calldata valuation; "
+             "(L2b fork) program TREES: state cheatcodes and reads with symbolic two-sided JUMPIs nested up to 3 deep (each on its own calldata word, every side tagged by a logged marker, "
+             "every leaf reading back all block fields / slots / balances / code sizes its profile touches; profiles block-only, storage, balance, code, mixed) run through SEVM.run; the multiset of "
+             "per-path outputs is compared with the python rendering (each path = its own root-to-leaf sequence) and with the extracted worklist model whose objects have identity and whose "
+             "create_branch follows the regenerated copy kinds; non-trivial = at least one fork; "
+             "(L1c) every svm.create*/vm.random* selector through the real handle() for widths 0..257 and byte sizes {0,1,31,32,33,64}: status, counter, returned term evaluated "
+             "under 5-9 valuations incl. boundaries, range constraints, symbol width/type/name/counter rendering; 300 successive creations on one path have pairwise distinct names",
+    )
 
 
 def replay(rep, body):
@@ -1463,6 +1651,24 @@ def replay(rep, body):
             print("ops           :", ops)
             print("implementation:", impl_prank_case(ops))
             print("spec          :", spec_trace(ops))
+        elif "fork_tree" in case:
+            def fix(t):
+                out = []
+                for n in t:
+                    if n[0] == "FORK":
+                        out.append(("FORK", fix(n[1]), fix(n[2])))
+                    else:
+                        out.append(tuple(tuple(a) if isinstance(a, list) and len(a) == 2 and a[0] == "cd" else a for a in n))
+                return out
+
+            from halmos.__main__ import mk_block
+
+            b = mk_block()
+            init_block = [as_int(b.basefee), as_int(b.chainid), as_int(b.coinbase), as_int(b.difficulty), as_int(b.number), as_int(b.timestamp)]
+            tree, vals = fix(case["fork_tree"]), case.get("calldata_values", [0, 0, 0, 0])
+            print("tree          :", tree)
+            print("implementation:", impl_fork_case(tree, vals))
+            print("spec          :", spec_tree(tree, vals, init_block))
         elif "state_items" in case:
             items = [tuple(tuple(a) if isinstance(a, list) and len(a) == 2 and a[0] == "cd" else a for a in it) for it in case["state_items"]]
             print("implementation:", impl_state_case(items, case.get("calldata_values", [0, 0, 0, 0]))[0])
